@@ -63,7 +63,66 @@ def _reaches_submit(ctx, cls, fn, depth=0, seen=None):
     return False
 
 
+import re as _re
+
+_XNAME = _re.compile(r'^(x|col)\d*$')
+_YNAME = _re.compile(r'^(y|row)\d*$')
+
+
+def _axis(node):
+    """Set of axes ('X', 'Y') whose quantities occur in an expression: x/col/width vs y/row/height."""
+    ax = set()
+    for n in ast.walk(node):
+        if isinstance(n, ast.Name):
+            if _XNAME.match(n.id):
+                ax.add('X')
+            elif _YNAME.match(n.id):
+                ax.add('Y')
+        elif isinstance(n, ast.Attribute):
+            if n.attr in ('width', '_width'):
+                ax.add('X')
+            elif n.attr in ('height', '_height'):
+                ax.add('Y')
+    return ax
+
+
+def _geometry(ctx, rep):
+    """Which text cells a drawing operation dirties (and hence which pixels are sent to the display) is computed
+    by four small conversions; each arithmetic term must stay on one axis (x, columns, font width / y, rows,
+    font height) and feed a result of that axis."""
+    n = 0
+    for name in ('pixel_to_text_pos', 'pixel_to_text_area', 'text_to_pixel_pos', 'text_to_pixel_area'):
+        fn = ctx.fn(BUF + ':VideoBuffer.' + name)
+        terms = []
+        for a in own_nodes(fn):
+            if isinstance(a, ast.Assign) and isinstance(a.targets[0], ast.Name):
+                terms.append((a.targets[0].id, a.value))
+            elif isinstance(a, ast.Return) and isinstance(a.value, ast.Tuple):
+                for e in a.value.elts:
+                    if not isinstance(e, ast.Name):
+                        terms.append((None, e))
+        for target, e in terms:
+            ax = _axis(e)
+            if not ax:
+                continue
+            n += 1
+            want = ('X' if _XNAME.match(target) else 'Y' if _YNAME.match(target) else None) if target else None
+            ok = len(ax) == 1 and (want is None or want in ax)
+            rep.ob('geometry.axis-consistent', '%s: %s%s' % (name, (target + ' = ') if target else '', short(e, 60)), ok,
+                   'the term mixes horizontal and vertical quantities: with non-square character cells (8x14 in SCREEN 9) drawn pixels are attributed to the wrong text rows and never sent to the display',
+                   ctx.where(e))
+    rep.floor('geometry.axis-consistent', n, 12, 'conversion terms')
+    # a resumed session redraws: every page is resubmitted, not only the active one
+    rb = ctx.fn('pcbasic/basic/display/display.py:Display.rebuild')
+    rs = [c for c in own_nodes(rb) if isinstance(c, ast.Call) and isinstance(c.func, ast.Attribute) and c.func.attr == 'resubmit']
+    ok = len(rs) == 1 and isinstance(rs[0]._parent._parent, ast.For) and norm(rs[0]._parent._parent.iter) == 'self.pages' \
+        and norm(rs[0].func.value) == norm(rs[0]._parent._parent.target)
+    rep.ob('rebuild.every-page-resubmitted', 'Display.rebuild resubmits every page of the mode', ok,
+           'only %s is redrawn: after resume a visible page that is not the active page stays blank' % [norm(c.func.value) for c in rs], ctx.where(rb))
+
+
 def check(ctx, rep):
+    _geometry(ctx, rep)
     vp = ctx.cls(VID + ':VideoPlugin')
     init = class_methods(vp)['__init__']
     handlers = {}
@@ -178,6 +237,10 @@ def variants(ctx):
         return lambda tree: f(mu.find_def(tree, f_name))
 
     return [
+        Va('text-area-row-from-font-width', 'break', BUF,
+           lambda tree: mu.replace_expr(mu.find_def(tree, 'VideoBuffer.pixel_to_text_area'), mu.text_is('1 + y0 // self._font.height'), '1 + y0 // self._font.width'), expect='geometry.axis'),
+        Va('rebuild-active-page-only', 'break', 'pcbasic/basic/display/display.py',
+           lambda tree: mu.replace_stmt(mu.find_def(tree, 'Display.rebuild'), lambda st: isinstance(st, ast.For) and 'resubmit' in norm(st), 'self.apage.resubmit()'), expect='rebuild.every-page'),
         Va('scroll-up-fill-dropped', 'break', BUF,
            in_fn('VideoBuffer.scroll_up', lambda fn: mu.remove_stmt(fn, lambda st: isinstance(st, ast.Assign) and norm(st.value) == 'back' and 'self._pixels[' in norm(st.targets[0]))),
            expect='colour'),
